@@ -95,6 +95,14 @@ def trainStepRec (eng : Mat → Mat → Rat → Option Mat) (α lrP lrA : Rat) :
   | (some m, g :: rest), _, _ => (step eng α (sgd lrP) (sgd lrA) m g, rest)
   | (_, rest), _, _ => (none, rest.drop 1)
 
+/-- a run of `train_step`s in which every step has its OWN `α` (the estimator's `alpha` may be changed between steps —
+    callbacks that schedule alpha, `set_params`): the engine reads `alpha` at each step -/
+def runSched {τP τA : Type} (eng : Mat → Mat → Rat → Option Mat) (optP : Opt τP) (optA : Opt τA) :
+    Option (Model τP τA) → List (Rat × Grads) → Option (Model τP τA)
+  | m, [] => m
+  | none, _ => none
+  | some m, (α, g) :: rest => runSched eng optP optA (step eng α optP optA m g) rest
+
 /-! ### driver glue -/
 
 def parseTensors (s : String) : Option (List Mat) := (s.splitOn "|").mapM Proto.parseMat
